@@ -48,6 +48,12 @@ def sh(cmd, cwd=None, timeout=3600, env=None, inp=None):
 def cargo_build_hx():
     """build hx (release, checked) from /repo's current tree; returns path of magic_constants.rs actually included."""
     os.makedirs(HARNESS, exist_ok=True)
+    # the harness depends on the repository by path; the path follows RAWR_REPO (default /repo)
+    toml = os.path.join(HARNESS, "Cargo.toml")
+    src = open(toml).read()
+    new = re.sub(r'rawr = \{ path = "[^"]*" \}', 'rawr = { path = "%s" }' % REPO, src)
+    if new != src:
+        open(toml, "w").write(new)
     rc, out = sh(["cargo", "build", "--release", "--offline", "--message-format=json"], cwd=HARNESS)
     artefact = None
     errs = []
